@@ -1794,7 +1794,11 @@ def _lincomb_impl(a, x1, b, x2, out):
 
     if size < THRESHOLD_SMALL:
         # Faster for small arrays
-        out.data[:] = a * x1.data + b * x2.data
+        if a == 0 and b == 0:
+            # Exact zero as in the other size regimes (0 * nan would be nan)
+            out.data[:] = 0
+        else:
+            out.data[:] = a * x1.data + b * x2.data
         return
 
     elif (size < THRESHOLD_MEDIUM or
